@@ -4,7 +4,7 @@
 EXTENDS Models, TLC, TLCExt, Json, IOUtils
 Traces == JsonDeserialize(IOEnv.TRACE_FILE)
 VARIABLES tid, verdict, dev
-Tol == 8           \* 8 / 4096 ~ 2e-3 (outputs are O(1..10))
+Tol == 8           \* 8 / 4096 ~ 2e-3 for outputs of order 1..10; Close adds 2^-16 of the value for large outputs
 M(t) == t.scenario.model
 AllObs(t) == LET ps == {i \in DOMAIN t.pres : t.pres[i].exc = "" /\ t.pres[i].drop = ""} IN
              UNION {{t.pres[i].obs[j] : j \in DOMAIN t.pres[i].obs} : i \in ps}
